@@ -603,7 +603,8 @@ Proof.
     cbv beta iota zeta. destruct (Best1 ltac:(discriminate)) as (B1x & _). split; [exact B1x|rewrite Stm; exact Sk3].
   - (* Truncated *)
     cbv beta iota zeta. destruct (has_best w3); [split; [exact XC3|exact Sk3]|].
-    split; [apply XI_mark_best0; [exact XC3|exact (proj1 P3)]|rewrite Stm; exact Sk3].
+    split; [apply XI_mark_best0; [apply XI_restore; exact XC3|exact (proj1 (proj1 (JT_restore n w3 P3)))]|].
+    rewrite <- Sk3. destruct w3; reflexivity.
   - (* NewLineBeforeBreak *)
     cbv beta iota zeta. split; [apply XI_set_br; apply XI_restore; exact XC3|].
     rewrite <- Sk3. destruct w3; reflexivity.
@@ -693,15 +694,16 @@ Proof.
   - (* EndLine *)
     cbv beta iota zeta. destruct (Best1 ltac:(discriminate)) as (B1x & _). split; [exact B1x|rewrite Stm; exact Sk3].
   - (* Truncated *)
-    assert (X' : JP n (if has_best w3 then w3 else mark_best w3 []) /\ w_br (if has_best w3 then w3 else mark_best w3 []) = b1
-                 /\ s_save (w_sc (if has_best w3 then w3 else mark_best w3 [])) = s_alt (w_sc w)
-                 /\ w_start (if has_best w3 then w3 else mark_best w3 []) = w_start w
-                 /\ XI n (if has_best w3 then w3 else mark_best w3 [])
-                 /\ sk (w_st (if has_best w3 then w3 else mark_best w3 [])) = sk (w_st w)).
+    assert (X' : JP n (if has_best w3 then w3 else mark_best (restore w3) []) /\ w_br (if has_best w3 then w3 else mark_best (restore w3) []) = b1
+                 /\ s_save (w_sc (if has_best w3 then w3 else mark_best (restore w3) [])) = s_alt (w_sc w)
+                 /\ w_start (if has_best w3 then w3 else mark_best (restore w3) []) = w_start w
+                 /\ XI n (if has_best w3 then w3 else mark_best (restore w3) [])
+                 /\ sk (w_st (if has_best w3 then w3 else mark_best (restore w3) [])) = sk (w_st w)).
     { destruct (has_best w3).
       - split; [exact P3|]. auto.
-      - destruct (JP_mark_best_nil n w3 P3 ltac:(rewrite F3v; rewrite F3s in *; exact LE3)) as [P4 _]. split; [exact P4|].
-        pose proof (XI_mark_best0 n w3 XC3 (proj1 P3)) as X4. rewrite <- (Stm []) in Sk3.
+      - destruct (JT_restore n w3 P3) as [P3r _].
+        destruct (JP_mark_best_nil n (restore w3) P3r ltac:(destruct w3; cbn; apply Z.le_refl)) as [P4 _]. split; [exact P4|].
+        pose proof (XI_mark_best0 n (restore w3) (XI_restore n w3 XC3) (proj1 P3r)) as X4.
         destruct w3; cbn in *. auto. }
     destruct X' as (X'1 & X'2 & X'3 & X'4 & X'5 & X'6).
     cbv beta iota zeta. destruct (policy_never _).
